@@ -10,12 +10,14 @@ static Verdict run(const Case &c) {
     int ifi = w.add_if(h.ifcfg());
     Mac own = h.ownmac();
     Shadow sh;
+    OtherIf oif;
     size_t cap = (h.mtu - 34) / 14;
     int checked = 0, maxn = 0;
     bool distinct2 = false, over = false;
     for (size_t i = 0; i < c.ops.size() && v.ok; i++) {
         const Op &op = c.ops[i];
         if (op.kind == K_ADVANCE) { vp_set_now_ms(vp_now_ms() + (uint64_t)op.arg(0)); continue; }
+        if (op.kind == K_OTHERIF) { oif.step(w, h, op); continue; }
         Built b = build_frame(h, op, sh);
         if (!b.is_frame) continue;
         Sem sem = frame_sem(b.frame);
@@ -137,7 +139,7 @@ int main(int argc, char **argv) {
     // random: Emits inside histories
     if (ok) {
         HistWeights w;
-        w.emit = 10; w.discover = 5; w.max_emit = 12; w.probe = 1; w.hello = 1; w.shell = 1; w.odd_tos = false;
+        w.emit = 10; w.discover = 5; w.max_emit = 12; w.probe = 1; w.hello = 1; w.shell = 1; w.odd_tos = false; w.otherif = 1;
         ok = run_cases(a, ev, "c06-histories", a.n(20000, 200000), 100, hg::hist_case(w, 2, 25), run);
     }
     // over-declared family
